@@ -94,7 +94,15 @@ func (s Server) getRequestContext() *app.RequestContext {
 	if disabaleRequestContextPool {
 		// not &app.RequestContext{}: the handler index of a usable context starts at -1,
 		// with index 0 Next() skips the first handler of every chain
-		return app.NewContext(0)
+		ctx := app.NewContext(0)
+		if s.EnableTrace {
+			// Serve records into the context's trace info unconditionally when tracing
+			// is on; the pool's constructor, which normally attaches it, is not used here
+			ti := traceinfo.NewTraceInfo()
+			ti.Stats().SetLevel(stats.LevelDetailed)
+			ctx.SetTraceInfo(ti)
+		}
+		return ctx
 	}
 	return s.Core.GetCtxPool().Get().(*app.RequestContext)
 }
